@@ -3,8 +3,11 @@ _A = ('amp', 40, 600)
 # 'the same on a new path after any address change': the path scenario's ledger is armed by the HARNESS' notion of a
 # validated address (Handshake packet / PATH_RESPONSE with the right token seen from it), not by the connection's flag
 _PV = ('pathv', 24, 300)
+# the generic oracle of the simulator (sim.rs::on_transmit) on migrating connections: armed by crate::addrval (harness-derived
+# causes of validation: Handshake packet of the peer delivered, token the endpoint issued, PATH_RESPONSE echoing a challenge)
+_MG = ('migrate', 24, 300)
 PROPS = {
-    'C07': dict(sim=[_X, _A, _PV],
-                modelled='paths.rs anti_amplification_blocked (generated), the gated datagram loop of poll_transmit, crediting in handle_event/handle_coalesced/handle_first_packet, migrate (fresh path), Endpoint::stateless_reset size arithmetic and rate limit; every observed path transition (rx/tx) of the simulator is validated against the Lean model',
+    'C07': dict(sim=[_X, _A, _PV, _MG],
+                modelled='paths.rs anti_amplification_blocked (generated), the gated datagram loop of poll_transmit, crediting in handle_event/handle_coalesced/handle_first_packet, migrate (fresh path), Endpoint::stateless_reset size arithmetic and rate limit; every observed path transition (new/rx/foreign/tx) of the simulator is validated against the Lean model; whether a received datagram may validate the path is PREDICTED from causes the harness derives from the peer\'s transmit record (Conn/Amplification rxVerdict), and the 3x oracle is armed by those causes, never by path.validated',
                 not_modelled='what the packet builder puts in a datagram; MTU probes / PATH_CHALLENGE to the previous path / off-path PATH_RESPONSE are sent outside the gated loop (observed by the simulator oracle, not in the model); short-Initial decision of Endpoint::handle'),
 }
